@@ -137,7 +137,22 @@ def worker(run, shape):
                               {'cmd': 'makeunmake', 'board': btoks, 'ply': ptoks, 'expect': 'board unchanged', 'differs': diff,
                                'role': PRED_S1 if in_ph else 'other'})
         else:
-            run.inconclusive.append('%s/ph: model does not reproduce natively (%s %s)' % (name, stt, diff))
+            # the model may depend on the length of the (abstracted) older part of the log: replay with long logs
+            n0 = getattr(P0['ph'], 'n0', None)
+            n0m = BS.mint(q.model, n0) if n0 is not None else 0
+            done = False
+            for L in sorted({x for x in (n0m, 64, 100, 128, 256) if 0 < x <= 1000}):
+                keys = ([zk] if in_ph else []) + [(0x9E3779B97F4A7C15 * (i + 1)) & 0xffffffffffffffff for i in range(L)]
+                keys = keys[:L]
+                btoks = BS.board_tokens_from_model(q.model, S, ph_keys=keys)
+                stt, diff = compare_native(run, 'makeunmake', btoks, ptoks)
+                if stt == 'OK' and 'ph' in diff:
+                    run.violation('make;unmake of %s does not restore the record of earlier positions when it holds %d keys' % (name, L),
+                                  {'cmd': 'makeunmake', 'board': btoks, 'ply': ptoks, 'expect': 'board unchanged', 'differs': diff, 'role': 'long-log'})
+                    done = True
+                    break
+            if not done:
+                run.inconclusive.append('%s/ph: model does not reproduce natively (%s %s)' % (name, stt, diff))
     if len(run.samples) < 1:
         run.samples.append({'shape': name, 'obligation': 'forall S|=Inv, mv|=Cons: unmake(make(S,mv)) == S, componentwise',
                             'queries': [q['id'] for q in run.queries[-6:]]})
